@@ -47,7 +47,6 @@ type Sched struct {
 
 	mu        sync.Mutex
 	main      *dkv.DB
-	adopt     bool // the next database seen at a hook becomes the main one
 	scanArmed atomic.Bool
 
 	flushState, compState string // "", "start"/"swap", "pick"/"swap"
@@ -78,10 +77,6 @@ func (s *Sched) hook(point string, args ...any) {
 		return
 	}
 	s.mu.Lock()
-	if s.adopt && s.main == nil {
-		s.main = db
-		s.adopt = false
-	}
 	isMain := db == s.main
 	s.mu.Unlock()
 	if !isMain {
@@ -104,22 +99,12 @@ func (s *Sched) SetMain(db *dkv.DB) {
 	s.mu.Lock()
 	old := s.main
 	s.main = db
-	s.adopt = false
 	s.mu.Unlock()
 	if old != nil && old != db {
 		s.G.ReleaseWhere(func(a *gate.Arrival) bool { return len(a.Args) > 0 && a.Args[0] == any(old) })
 	}
 	s.flushState, s.compState, s.flushArr, s.compArr = "", "", nil, nil
 	s.pendingFlush, s.pendingComp, s.memCount = 0, 0, 1
-}
-
-// AdoptNext: the first database that reaches any hook becomes the main one
-// (for databases created inside the code under test, e.g. by an operator).
-func (s *Sched) AdoptNext() {
-	s.SetMain(nil)
-	s.mu.Lock()
-	s.adopt = true
-	s.mu.Unlock()
 }
 
 func (s *Sched) Main() *dkv.DB {
